@@ -34,3 +34,9 @@ Definition g_rev_keeps (n : net) (el : Z) : bool :=
 (* json_io.py: network_from_json, weight of the edge leaving a node (cm; is_fibre = isinstance(node, Fiber)) *)
 Definition g_edge_weight (is_fibre : bool) (length_cm : Z) : Z :=
   if is_fibre then length_cm else 1.
+
+(* request.py: compute_path_dsjctn step 4 (full_path = the candidate, short_path = its ROADM short list) *)
+Definition g_vector_include_ok (nodes_list full_path short_path : list Z) : bool :=
+  (ispart nodes_list full_path).
+Definition g_vector_strict (strict_list : list bool) : bool :=
+  (existsb (fun b : bool => b) strict_list).
